@@ -332,8 +332,10 @@ func evalClassDeclareStmt(vm *r.VM, node *syntax.ClassDeclareStmt) error {
 	}
 
 	// then add symbol to export value
-	if err := module.AddExportValue(className.GetLiteral(), classRef); err != nil {
-		return err
+	if module != nil {
+		if err := module.AddExportValue(className.GetLiteral(), classRef); err != nil {
+			return err
+		}
 	}
 	return nil
 }
